@@ -15,7 +15,7 @@ use std::{
 	time::Duration,
 };
 
-use notify::{Config as NConfig, RecursiveMode, WatcherKind};
+use notify::{Config as NConfig, RecursiveMode, Watcher as _, WatcherKind};
 use vcommon::{json, mono_ns, Fnv, Heartbeat, Report, Rng, ShardArgs, Value};
 use watchexec::{sources::fs::Watcher, Config, ErrorHook, WatchedPath, Watchexec};
 use watchexec_events::{Event, Priority, Source, Tag};
@@ -69,6 +69,7 @@ struct Rec {
 	calls_since_arm: usize,
 	armed: Vec<(usize, Box<dyn FnOnce() + Send>)>,
 	injected: Vec<(String, bool)>,
+	handlers: Vec<SharedHandler>,
 }
 
 struct Inst {
@@ -80,8 +81,10 @@ struct Inst {
 struct FakeWatcher {
 	id: usize,
 	rec: Arc<Mutex<Rec>>,
-	_handler: watchexec::sources::fs::verif::Handler,
+	_handler: SharedHandler,
 }
+
+type SharedHandler = Arc<Mutex<watchexec::sources::fs::verif::Handler>>;
 
 fn kind_name(k: Watcher) -> String {
 	format!("{k:?}")
@@ -339,6 +342,8 @@ fn run_scn(scn: &Scn, base: &Path) -> Outcome {
 				r.log.push((mono_ns(), WEv::Create { inst: id, kind: kind_name(kind) }));
 				id
 			};
+			let handler: SharedHandler = Arc::new(Mutex::new(handler));
+			rec.lock().unwrap().handlers.push(handler.clone());
 			Ok(Box::new(FakeWatcher { id, rec: rec.clone(), _handler: handler }) as Box<dyn notify::Watcher + Send>)
 		})));
 	}
@@ -691,4 +696,306 @@ pub fn run_one(prop: &str, args: &ShardArgs, rng: &mut Rng, rep: &mut Report, k:
 		rep.sample(json!({"scenario": scn_json(&scn), "watcher_log": out.log.iter().take(20).collect::<Vec<_>>()}));
 	}
 	let _ = WARNED.load(Ordering::Relaxed);
+}
+
+
+/// C15: faults raised from the watcher's own callback — unreadable events (`Err(notify::Error)`) and event-queue
+/// overflow behind a slow action handler. Each is passed to the error handler at most once, and nothing stops.
+pub fn callback_faults(args: &ShardArgs, rng: &mut Rng, rep: &mut Report) {
+	let base = args.scratch.join("c15-cb");
+	std::fs::create_dir_all(base.join("a")).ok();
+	let rt = tokio::runtime::Builder::new_multi_thread().worker_threads(3).enable_all().build().expect("runtime");
+	let hb = Heartbeat::start();
+	let rec = Arc::new(Mutex::new(Rec::default()));
+	{
+		let rec = rec.clone();
+		watchexec::sources::fs::verif::set_factory(Some(Arc::new(move |kind, handler| {
+			let handler: SharedHandler = Arc::new(Mutex::new(handler));
+			let id = {
+				let mut r = rec.lock().unwrap();
+				r.instances.push(Inst { kind: kind_name(kind), registered: BTreeMap::new(), dropped: false });
+				r.handlers.push(handler.clone());
+				r.instances.len() - 1
+			};
+			Ok(Box::new(FakeWatcher { id, rec: rec.clone(), _handler: handler }) as Box<dyn notify::Watcher + Send>)
+		})));
+	}
+	let nerr = 1 + rng.usize(5);
+	let nflood = 20 + rng.usize(60);
+	let err_chan = *rng.pick(&[1usize, 2, 64]);
+	let errors: Arc<Mutex<Vec<String>>> = Arc::new(Mutex::new(vec![]));
+	let delivered: Arc<Mutex<Vec<String>>> = Arc::new(Mutex::new(vec![]));
+	let probe_seen = Arc::new(AtomicBool::new(false));
+	let (main_ok, setup_ok) = rt.block_on(async {
+		let mut config = Config::default();
+		config.event_channel_size = 1;
+		config.error_channel_size = err_chan;
+		config.throttle(Duration::from_millis(0));
+		let d = delivered.clone();
+		let ps = probe_seen.clone();
+		config.on_action(move |mut action| {
+			let events = action.events.clone();
+			for e in events.iter() {
+				if e.metadata.contains_key("verif-quit") {
+					action.quit();
+				}
+				if e.metadata.contains_key("verif-probe") {
+					ps.store(true, Ordering::SeqCst);
+				}
+				if let Some(i) = e.metadata.get("file-event-info").and_then(|v| v.first()) {
+					d.lock().unwrap().push(i.clone());
+				}
+			}
+			std::thread::sleep(Duration::from_millis(3));
+			action
+		});
+		let er = errors.clone();
+		config.on_error(move |hook: ErrorHook| {
+			er.lock().unwrap().push(format!("{:?}", hook.error));
+		});
+		let wx = Watchexec::with_config(config).expect("with_config");
+		let main = wx.main();
+		wx.config.pathset([base.join("a")]);
+		let t0 = std::time::Instant::now();
+		while rec.lock().unwrap().handlers.is_empty() && t0.elapsed() < Duration::from_secs(5) {
+			tokio::time::sleep(Duration::from_millis(2)).await;
+		}
+		let Some(handler) = rec.lock().unwrap().handlers.first().cloned() else {
+			return (false, false);
+		};
+		// the watcher's own thread delivers unreadable events and a flood
+		let base2 = base.clone();
+		let feeder = std::thread::spawn(move || {
+			let mut h = handler.lock().unwrap();
+			for i in 0..nflood {
+				if i < nerr {
+					(*h)(Err(notify::Error::generic(&format!("verif-callback-error-{i}-"))));
+				}
+				let mut ev = notify::Event::new(notify::EventKind::Create(notify::event::CreateKind::File)).add_path(base2.join(format!("a/f{i}")));
+				ev.attrs.set_info(&format!("flood-{i}"));
+				(*h)(Ok(ev));
+			}
+		});
+		feeder.join().ok();
+		tokio::time::sleep(Duration::from_millis(300)).await;
+		let mut md = std::collections::HashMap::new();
+		md.insert("verif-probe".to_string(), vec!["1".into()]);
+		wx.send_event(Event { tags: vec![Tag::Source(Source::Internal)], metadata: md }, Priority::Urgent).await.ok();
+		let t1 = std::time::Instant::now();
+		while !probe_seen.load(Ordering::SeqCst) && t1.elapsed() < Duration::from_secs(5) {
+			tokio::time::sleep(Duration::from_millis(2)).await;
+		}
+		let mut md = std::collections::HashMap::new();
+		md.insert("verif-quit".to_string(), vec!["1".into()]);
+		wx.send_event(Event { tags: vec![], metadata: md }, Priority::Urgent).await.ok();
+		let r = tokio::time::timeout(Duration::from_secs(10), main).await;
+		(matches!(r, Ok(Ok(Ok(())))), true)
+	});
+	watchexec::sources::fs::verif::set_factory(None);
+	rt.shutdown_timeout(Duration::from_millis(200));
+	let gap = hb.take_max_gap();
+	rep.eval();
+	if !setup_ok {
+		rep.inconclusive("callback-fault-setup-failed");
+		return;
+	}
+	let errs = errors.lock().unwrap().clone();
+	let dl = delivered.lock().unwrap().clone();
+	rep.count("callback_errors_injected", nerr as u64);
+	rep.count("callback_flood_events", nflood as u64);
+	rep.count("callback_errors_at_handler", errs.len() as u64);
+	let mut f = Fnv::default();
+	f.u64(errs.len().min(20) as u64).u64(dl.len().min(20) as u64).u64(err_chan as u64);
+	rep.nontrivial(f.finish());
+	let wit = || json!({"injected_unreadable": nerr, "flood": nflood, "error_channel_size": err_chan, "errors": errs.iter().take(12).collect::<Vec<_>>(), "delivered": dl.len()});
+	for i in 0..nerr {
+		let n = errs.iter().filter(|e| e.contains(&format!("verif-callback-error-{i}-"))).count();
+		if n > 1 {
+			rep.violation("C15/callback-error/reported-twice", &format!("unreadable event #{i} from the watcher callback reached the error handler {n} times"), wit());
+		}
+	}
+	let overflow = errs.iter().filter(|e| e.contains("EventChannelTrySend")).count();
+	let mut seen = std::collections::BTreeSet::new();
+	for d in &dl {
+		if !seen.insert(d.clone()) {
+			rep.violation("C15/callback-flood/event-delivered-twice", &format!("flood event {d} was delivered twice"), wit());
+		}
+	}
+	if overflow + seen.len() > nflood {
+		rep.violation(
+			"C15/callback-flood/more-outcomes-than-events",
+			&format!("{nflood} events came out of the watcher callback but {} were delivered and {overflow} overflow errors were reported", seen.len()),
+			wit(),
+		);
+	}
+	let other: Vec<&String> = errs.iter().filter(|e| !e.contains("EventChannelTrySend") && !e.contains("verif-callback-error-")).collect();
+	if let Some(o) = other.first() {
+		rep.violation("C15/unexpected-runtime-error", &format!("unexpected runtime error: {}", o.chars().take(200).collect::<String>()), wit());
+	}
+	if gap < Duration::from_millis(500) {
+		if !probe_seen.load(Ordering::SeqCst) {
+			rep.violation("C15/callback-faults/later-event-not-processed", "an event sent after the callback faults was not processed within 5 s", wit());
+		}
+		if !main_ok {
+			rep.violation("C15/callback-faults/main-did-not-end-ok", "the main task did not end with Ok(()) after callback faults and a quit", wit());
+		}
+	} else {
+		rep.inconclusive("callback-faults-machine-stalled");
+	}
+}
+
+
+struct RealWrap {
+	inner: Box<dyn notify::Watcher + Send>,
+}
+
+impl notify::Watcher for RealWrap {
+	fn new<F: notify::EventHandler>(_h: F, _c: NConfig) -> notify::Result<Self>
+	where
+		Self: Sized,
+	{
+		Err(notify::Error::generic("built by the factory only"))
+	}
+	fn watch(&mut self, path: &Path, mode: RecursiveMode) -> notify::Result<()> {
+		self.inner.watch(path, mode)
+	}
+	fn unwatch(&mut self, path: &Path) -> notify::Result<()> {
+		self.inner.unwatch(path)
+	}
+	fn kind() -> WatcherKind
+	where
+		Self: Sized,
+	{
+		WatcherKind::NullWatcher
+	}
+}
+
+/// C13, behavioural variant with the real notify watchers: after a sequence of run-time changes has settled, a file
+/// touched in each candidate directory produces an event exactly where the configured path set (with its recursion
+/// modes) covers it.
+pub fn real_variant(args: &ShardArgs, rng: &mut Rng, rep: &mut Report, k: usize) {
+	let base = args.scratch.join(format!("c13-real-{k}"));
+	std::fs::remove_dir_all(&base).ok();
+	for d in ["a/c/deep", "b"] {
+		std::fs::create_dir_all(base.join(d)).ok();
+	}
+	let base = base.canonicalize().unwrap();
+	let seen: Arc<Mutex<Vec<PathBuf>>> = Arc::new(Mutex::new(vec![]));
+	{
+		let seen = seen.clone();
+		watchexec::sources::fs::verif::set_factory(Some(Arc::new(move |kind, mut handler| {
+			let seen = seen.clone();
+			let tap = move |res: notify::Result<notify::Event>| {
+				if let Ok(ev) = &res {
+					seen.lock().unwrap().extend(ev.paths.iter().cloned());
+				}
+				handler(res);
+			};
+			let inner: Box<dyn notify::Watcher + Send> = match kind {
+				Watcher::Poll(d) => Box::new(
+					notify::PollWatcher::new(tap, NConfig::default().with_poll_interval(d)).map_err(|e| watchexec::error::CriticalError::External(e.to_string().into()))?,
+				),
+				_ => Box::new(notify::RecommendedWatcher::new(tap, NConfig::default()).map_err(|e| watchexec::error::CriticalError::External(e.to_string().into()))?),
+			};
+			Ok(Box::new(RealWrap { inner }) as Box<dyn notify::Watcher + Send>)
+		})));
+	}
+	let rt = tokio::runtime::Builder::new_multi_thread().worker_threads(2).enable_all().build().expect("runtime");
+	let hb = Heartbeat::start();
+	// a few settled changes, the last one a non-empty path set
+	// disjoint paths only: with nested watched paths notify itself drops the inner watches of a recursive parent when
+	// the inner path is unwatched — the registered *set* still equals the configured one, which is what the property
+	// (and the recording-watcher check) is about, so that interplay is not judged here
+	let disjoint = |rng: &mut Rng| -> Vec<(String, bool)> {
+		let mut v = vec![];
+		for n in ["a", "b"] {
+			if rng.chance(2, 3) {
+				v.push((n.to_string(), rng.chance(1, 2)));
+			}
+		}
+		v
+	};
+	let mut ops: Vec<Op> = vec![];
+	for _ in 0..(1 + rng.usize(3)) {
+		ops.push(match rng.below(4) {
+			0 => Op::Kind(if rng.chance(1, 2) { None } else { Some(40) }),
+			_ => Op::PathSet(disjoint(rng)),
+		});
+	}
+	let mut last = disjoint(rng);
+	if last.is_empty() {
+		last.push(("a".into(), rng.chance(1, 2)));
+	}
+	ops.push(Op::PathSet(last.clone()));
+	let poll = ops.iter().rev().find_map(|o| if let Op::Kind(k) = o { Some(k.is_some()) } else { None }).unwrap_or(false);
+	let errs = Arc::new(ErrLog { recs: Mutex::new(vec![]), version: AtomicU64::new(0), pending_cb: Mutex::new(None) });
+	let probes = ["a/p.txt", "a/c/p.txt", "a/c/deep/p.txt", "b/p.txt"];
+	rt.block_on(async {
+		let config = Config::default();
+		config.throttle(Duration::from_millis(5));
+		config.on_action(|mut action| {
+			if action.events.iter().any(|e| e.metadata.contains_key("verif-quit")) {
+				action.quit();
+			}
+			action
+		});
+		let wx = Arc::new(Watchexec::with_config(config).expect("with_config"));
+		install_errh(&wx.config, &errs, 0, None);
+		let main = wx.main();
+		for op in &ops {
+			apply(&wx.config, &base, op, &errs);
+			tokio::time::sleep(Duration::from_millis(if poll { 150 } else { 60 })).await;
+		}
+		tokio::time::sleep(Duration::from_millis(if poll { 200 } else { 100 })).await;
+		seen.lock().unwrap().clear();
+		for p in probes {
+			std::fs::write(base.join(p), "x").ok();
+		}
+		tokio::time::sleep(Duration::from_millis(if poll { 400 } else { 250 })).await;
+		let mut md = std::collections::HashMap::new();
+		md.insert("verif-quit".to_string(), vec!["1".into()]);
+		wx.send_event(Event { tags: vec![], metadata: md }, Priority::Urgent).await.ok();
+		tokio::time::timeout(Duration::from_secs(10), main).await.ok();
+	});
+	watchexec::sources::fs::verif::set_factory(None);
+	rt.shutdown_timeout(Duration::from_millis(200));
+	let gap = hb.take_max_gap();
+	rep.eval();
+	rep.count("real_watcher_scenarios", 1);
+	let got: BTreeSet<PathBuf> = seen.lock().unwrap().iter().cloned().collect();
+	let mut f = Fnv::default();
+	for (p, r) in &last {
+		f.str(p).u64(u64::from(*r));
+	}
+	f.u64(u64::from(poll)).u64(ops.len() as u64);
+	rep.nontrivial(f.finish());
+	let wit = || json!({"ops": ops.iter().map(|o| format!("{o:?}")).collect::<Vec<_>>(), "final_pathset": last, "poll": poll,
+		"event_paths": got.iter().map(|p| p.strip_prefix(&base).unwrap_or(p).display().to_string()).collect::<Vec<_>>(),
+		"errors": errs.recs.lock().unwrap().iter().map(|e| e.1.chars().take(120).collect::<String>()).collect::<Vec<_>>() });
+	if gap >= Duration::from_millis(300) {
+		rep.inconclusive("real-watcher-machine-stalled");
+		std::fs::remove_dir_all(&base).ok();
+		return;
+	}
+	for p in probes {
+		let dir = Path::new(p).parent().unwrap().display().to_string();
+		let covered = last.iter().any(|(w, rec)| dir == *w || (*rec && dir.starts_with(&format!("{w}/"))));
+		let mentioned = got.contains(&base.join(p));
+		rep.count("real_watcher_probes_judged", 1);
+		if covered && !mentioned {
+			rep.violation(
+				"C13/real/covered-path-silent",
+				&format!("{p} lies in the configured path set {last:?} but touching it produced no event from the {} watcher", if poll { "poll" } else { "native" }),
+				wit(),
+			);
+		}
+		if !covered && mentioned {
+			rep.violation(
+				"C13/real/uncovered-path-reported",
+				&format!("{p} is outside the configured path set {last:?} but touching it produced an event"),
+				wit(),
+			);
+		}
+	}
+	std::fs::remove_dir_all(&base).ok();
 }
